@@ -1,7 +1,7 @@
 (* C05 — HDF5-era lazy and concatenated indexers equal composed outer indexing.  Only statements here. *)
 From Coq Require Import ZArith List Bool.
 From KV Require Import Base.Sx Base.PySlice Base.AxisIndex Base.NdArray Base.LazyDType Gen.Generated
-  Model.LazyIdx Model.ConcatIdx Proofs.LazyIdxP Proofs.ConcatIdxP.
+  Model.LazyIdx Model.LazyNd Model.ConcatIdx Proofs.LazyIdxP Proofs.LazyNdP Proofs.ConcatIdxP.
 Import ListNotations.
 Open Scope Z_scope.
 
@@ -53,6 +53,66 @@ Theorem C05_getitem : forall shape ds k1 ts dt k2 li out a1,
   spec_getitem shape ds k1 ts dt k2 = Ok out.
 Proof. exact getitem_correct. Qed.
 Print Assumptions C05_getitem.
+
+(* ---- the N-d chunk loop (np.mgrid over the segment products, np.empty buffer, post-selection, block assignment) ---- *)
+
+(* C05_nd_loop (full strength): on abstract per-axis writes.  If on every kept axis the segment writes tile the output
+   range [0, |G|) (axis_tiled) then looping over ALL combinations of one segment per axis, reading the chunk
+   take ds (...) and assigning it to its output block, turns EVERY buffer of the right shape - whatever it held -
+   into the outer product take ds Gs.  (Induction over the axes; rows of a block are independent.) *)
+Theorem C05_nd_loop : forall Ws Gs, Forall2 axis_tiled Ws Gs ->
+  forall ds g, shaped (take_shape Gs) g -> pure_loop ds Ws g = take ds Gs.
+Proof. exact pure_loop_correct. Qed.
+Print Assumptions C05_nd_loop.
+
+(* C05_nd_refines (full strength): for plans whose output slices are contiguous from 0 (plan_tiled; every plan of
+   LazyIndexer is, C05_plans_tiled), any dataset content and ANY content of the np.empty buffer: if the real loop
+   (read_sel = dataset[ints / slices], post-selection per kept axis, write_nd = out[slices] = chunk with exact shape
+   match, or the single read when every axis is a scalar) succeeds, then every axis gathers in the 1-D model and the
+   result IS the outer product of the per-axis gathers, with shape [np.sum(segments) ...]. *)
+Theorem C05_nd_refines : forall garbage shape plans ds t,
+  List.length plans = List.length shape -> Forall plan_tiled plans ->
+  (forall sh, shaped sh (garbage sh)) ->
+  nd_extract garbage shape plans ds = Ok t ->
+  exists sels, mapM (fun a => axis_gather (fst a) (snd a)) (combine shape plans) = Ok sels
+    /\ t = take ds sels /\ take_shape sels = out_shape_of plans.
+Proof. exact nd_extract_sound. Qed.
+Print Assumptions C05_nd_refines.
+
+Theorem C05_plans_tiled : forall n m p, axis_plan n m = Ok p -> plan_tiled p.
+Proof. exact axis_plan_tiled. Qed.
+Print Assumptions C05_plans_tiled.
+
+(* C05_getitem_nd (full strength): C05_getitem for the indexer WITH its chunk loop and an arbitrary np.empty. *)
+Theorem C05_getitem_nd : forall garbage shape ds k1 ts dt k2 li out a1,
+  Forall (fun d => 0 <= d) shape -> (forall sh, shaped sh (garbage sh)) ->
+  mk_lazy shape k1 ts dt = Ok li ->
+  oindex_keep (mk_nd shape ds) k1 = Ok a1 ->
+  getitem_nd garbage li ds k2 = Ok out ->
+  spec_getitem shape ds k1 ts dt k2 = Ok out.
+Proof. exact getitem_nd_correct. Qed.
+Print Assumptions C05_getitem_nd.
+
+(* no element of the answer is left over from the uninitialised buffer *)
+Theorem C05_getitem_nd_garbage_free : forall g1 g2 li ds ixs o1 o2,
+  List.length (li_lookup li) = List.length (li_shape li) ->
+  (forall sh, shaped sh (g1 sh)) -> (forall sh, shaped sh (g2 sh)) ->
+  getitem_nd g1 li ds ixs = Ok o1 -> getitem_nd g2 li ds ixs = Ok o2 -> o1 = o2.
+Proof. exact getitem_nd_garbage_free. Qed.
+Print Assumptions C05_getitem_nd_garbage_free.
+
+(* non-vacuity: 3-d, dense + scalar + sparse axes through the loop; all-scalar read; an out-of-range scalar next to an
+   empty selection and a negative step down to 0 are rejected *)
+Theorem C05_getitem_nd_example :
+  run_lazy_nd [12; 3; 4] [ASlice (Some 1) None None; AMask [true; false; true]] [AList [0; 2; 3; 7; 9]; AInt (-1); AList [0; 3]]
+  = spec_getitem [12; 3; 4] (arange [12; 3; 4] 0) [ASlice (Some 1) None None; AMask [true; false; true]] [] 0
+                 [AList [0; 2; 3; 7; 9]; AInt (-1); AList [0; 3]]
+  /\ run_lazy_nd [12; 3; 4] [ASlice (Some 1) None None; AMask [true; false; true]] [AList [0; 2; 3; 7; 9]; AInt (-1); AList [0; 3]] <> Err
+  /\ run_lazy_nd [5; 2] [] [AInt 1; AInt 0] = spec_getitem [5; 2] (arange [5; 2] 0) [] [] 0 [AInt 1; AInt 0]
+  /\ run_lazy_nd [5; 2] [] [AList []; AInt 5] = Err
+  /\ run_lazy_nd [5] [] [ASlice None None (Some (-1))] = Err.
+Proof. exact lazy_nd_example. Qed.
+Print Assumptions C05_getitem_nd_example.
 
 (* the hypotheses are satisfiable: a dense (span + post-select) and a sparse (per-run) selection *)
 Theorem C05_getitem_example :
